@@ -47,6 +47,50 @@ type histCase[C any] struct {
 	// Bystander: the failure shows only when another environment (another emulator instance) has been created
 	// after the one the case runs on, i.e. through state shared between instances of one process.
 	Bystander bool `json:"_bystander,omitempty"`
+	// Concurrent: the failure never shows when the case runs alone in the process, and shows when it is re-executed
+	// while other cases of the same part (Pool) run on other emulator instances in parallel goroutines: what one
+	// instance does reaches another through state shared inside the process. Replaying re-creates that situation.
+	Concurrent bool `json:"_concurrent,omitempty"`
+	Pool       []C  `json:"_pool,omitempty"`
+}
+
+// runConcurrent re-executes c (fresh environment each time, up to trials times or for about 20 s) while three
+// goroutines keep executing the pool's cases on environments of their own; it returns how often c failed with the
+// given signature and how often it ran.
+func runConcurrent[C any, E any](check func(l *Local, env E, c C) *Fail, newEnv func() E, c C, pool []C, sig string, trials int) (hits, runs int, last *Fail) {
+	if len(pool) == 0 {
+		return 0, 0, nil
+	}
+	stop := make(chan struct{})
+	var wg sync.WaitGroup
+	for g := 0; g < 3; g++ {
+		wg.Add(1)
+		go func(g int) {
+			defer wg.Done()
+			for i := g; ; i += 3 {
+				select {
+				case <-stop:
+					return
+				default:
+				}
+				l := &Local{outcomes: map[uint64]struct{}{}}
+				safely(check, l, newEnv(), pool[i%len(pool)])
+			}
+		}(g)
+	}
+	t0 := time.Now()
+	for runs < trials && (runs < 3 || time.Since(t0) < 20*time.Second) {
+		l := &Local{outcomes: map[uint64]struct{}{}}
+		f := safely(check, l, newEnv(), c)
+		runs++
+		if f != nil && f.Sig == sig {
+			hits++
+			last = f
+		}
+	}
+	close(stop)
+	wg.Wait()
+	return
 }
 
 // runBystander executes c on a fresh environment after a second environment has been created.
@@ -133,6 +177,49 @@ func Product[C any, E any](r *Report, name string, opt PartOpt, gen func(yield f
 			}
 			return f, nil
 		}
+		if err := json.Unmarshal(raw, &hc); err == nil && hc.Case != nil && hc.Concurrent {
+			l := &Local{outcomes: map[uint64]struct{}{}}
+			first := safely(check, l, newEnv(), *hc.Case)
+			if first != nil {
+				return first, nil // (it fails alone as well here)
+			}
+			for _, p := range hc.Pool {
+				l := &Local{outcomes: map[uint64]struct{}{}}
+				if f := safely(check, l, newEnv(), p); f != nil {
+					return f, nil
+				}
+			}
+			var f *Fail
+			// any failure of the case next to the pool counts
+			stop := make(chan struct{})
+			var wg sync.WaitGroup
+			for g := 0; g < 3; g++ {
+				wg.Add(1)
+				go func(g int) {
+					defer wg.Done()
+					for i := g; ; i += 3 {
+						select {
+						case <-stop:
+							return
+						default:
+						}
+						l := &Local{outcomes: map[uint64]struct{}{}}
+						safely(check, l, newEnv(), hc.Pool[i%len(hc.Pool)])
+					}
+				}(g)
+			}
+			t0 := time.Now()
+			for n := 0; n < 200 && f == nil && (n < 3 || time.Since(t0) < 30*time.Second); n++ {
+				l := &Local{outcomes: map[uint64]struct{}{}}
+				f = safely(check, l, newEnv(), *hc.Case)
+			}
+			close(stop)
+			wg.Wait()
+			if f != nil {
+				f.Msg = "only while other emulator instances are running in the same process: " + f.Msg
+			}
+			return f, nil
+		}
 		if err := json.Unmarshal(raw, &hc); err == nil && hc.Case != nil {
 			f := runHist(check, newEnv, hc.History, *hc.Case)
 			if f != nil {
@@ -208,10 +295,14 @@ func Product[C any, E any](r *Report, name string, opt PartOpt, gen func(yield f
 		}(w)
 	}
 	var cases int64
+	var pool []C // the first cases of the part: company for a failing case that does not fail alone
 	batch := make([]C, 0, 64)
 	bsz := 1
 	capped := false
 	gen(func(c C) bool {
+		if len(pool) < 48 {
+			pool = append(pool, c)
+		}
 		if cases < 3 {
 			r.Sample(map[string]any{"part": name, "case": c})
 		}
@@ -312,6 +403,29 @@ func Product[C any, E any](r *Report, name string, opt PartOpt, gen func(yield f
 						c := fc.c
 						histArt = &histCase[C]{Case: &c, Bystander: true}
 						fc.f.Msg = "with a second emulator instance created afterwards in the same process: " + fc.f.Msg
+					}
+				}
+				if histArt == nil && f2 == nil && nw > 1 {
+					// or it needs other instances ACTIVE in the process at the same time, as they were when the workers ran
+					// side by side: re-execute it next to other cases of this part. It never fails alone (five fresh
+					// re-executions at most have just passed); if it fails in that company, instances share state.
+					alone := 0
+					for j := 0; j < 3; j++ {
+						l := &Local{outcomes: map[uint64]struct{}{}}
+						if f3 := safely(check, l, newEnv(), fc.c); f3 != nil {
+							alone++
+						}
+					}
+					company := append([]C(nil), pool...)
+					company = append(company, fc.c)
+					if hits, runs, last := runConcurrent(check, newEnv, fc.c, company, fc.f.Sig, 60); alone == 0 && hits > 0 {
+						c := fc.c
+						if len(company) > 16 {
+							company = company[len(company)-16:]
+						}
+						histArt = &histCase[C]{Case: &c, Concurrent: true, Pool: company}
+						fc.f = last
+						fc.f.Msg = fmt.Sprintf("only while other emulator instances are running in the same process (never in %d re-executions alone, %d times in %d re-executions next to other cases of this part on instances of their own): state is shared between instances: %s", 4+alone, hits, runs, fc.f.Msg)
 					}
 				}
 				if histArt == nil {
